@@ -3,8 +3,8 @@ package main
 // C09: pairwise local alignment.
 
 import (
-	"math"
 	"fmt"
+	"math"
 	"math/rand"
 	"os"
 	"os/exec"
